@@ -110,6 +110,11 @@ impl LoadBalancer {
   pub async fn wait_for_connection(&self) -> Result<(), ZmqError> {
     let notify = self.notify_waiters.clone();
     loop {
+      // Register for the wake-up before checking, so an add_connection() landing
+      // between the check and the wait cannot be missed.
+      let notified = notify.notified();
+      tokio::pin!(notified);
+      notified.as_mut().enable();
       if self.deactivated.load(std::sync::atomic::Ordering::Acquire) {
         return Err(ZmqError::InvalidState("Socket closed".into()));
       }
@@ -117,7 +122,7 @@ impl LoadBalancer {
         return Ok(());
       }
       verif_point!("wait_for_connection:checked_empty");
-      notify.notified().await;
+      notified.await;
     }
   }
 
